@@ -11,3 +11,12 @@ package base
 //@   trusted
 //@   pure
 //@   ensures err == nil ==> vl == blk_voters(b)
+
+// C02: the node's wallet is a fixed attribute of the chain
+//@ property C02
+//@ smt all (declare-fun chain_wallet (Iface) Iface)
+//@ func (c Chain) Wallet() (w)
+//@   iface
+//@   trusted
+//@   pure
+//@   ensures w == chain_wallet(c) && w != nil
